@@ -316,7 +316,7 @@ class Response:
         )
 
         cLength = None
-        if self.body is not None:
+        if self.body is not None and not self.stream:
             if isinstance(self.body, bytes):
                 cLength = len(self.body)
             elif isinstance(self.body, str):
